@@ -38,7 +38,8 @@ pub struct Settings {
     pub bits: u32,
     /// 0 = legacy bits, 1 = GameModsLegacy, 2 = intermode owned, 3 = intermode borrowed, 4 = lazer
     pub repr: u8,
-    /// lazer-only extras for mania/taiko: bit0 HoldOff, bit1 Invert, bit2 Random(seed)
+    /// extras that legacy bits cannot express: bit0 HoldOff, bit1 Invert, bit2 Random(seed) (mania/taiko,
+    /// lazer representation), bit3 Classic (intermode and lazer representations)
     pub lazer_extra: u8,
     pub seed: i32,
     pub mode: u8,
@@ -53,6 +54,14 @@ pub struct Settings {
 }
 
 impl Settings {
+    pub fn intermode(&self) -> GameModsIntermode {
+        let mut inter = GameModsIntermode::from_bits(self.bits);
+        if self.lazer_extra & 8 != 0 {
+            inter.insert(rosu_mods::GameModIntermode::Classic);
+        }
+        inter
+    }
+
     pub fn lazer_mods(&self) -> GameModsLazer {
         let mode = match self.mode {
             0 => rosu_mods::GameMode::Osu,
@@ -60,7 +69,7 @@ impl Settings {
             2 => rosu_mods::GameMode::Catch,
             _ => rosu_mods::GameMode::Mania,
         };
-        let inter = GameModsIntermode::from_bits(self.bits);
+        let inter = self.intermode();
         let mut mods = GameModsLazer::from_intermode(&inter, mode);
         if self.lazer_extra & 1 != 0 && self.mode == 3 {
             mods.insert(GameMod::HoldOffMania(HoldOffMania {}));
@@ -87,8 +96,8 @@ impl Settings {
         d = match self.repr {
             0 => d.mods(self.bits),
             1 => d.mods(GameModsLegacy::from_bits(self.bits)),
-            2 => d.mods(GameModsIntermode::from_bits(self.bits)),
-            3 => d.mods(&GameModsIntermode::from_bits(self.bits)),
+            2 => d.mods(self.intermode()),
+            3 => d.mods(&self.intermode()),
             _ => d.mods(self.lazer_mods()),
         };
         if let Some(cr) = self.clock_rate {
@@ -205,11 +214,15 @@ pub fn gen_settings(rng: &mut Rng, mode: u8) -> Settings {
         7 => 3,
         _ => 4,
     };
-    let lazer_extra = if repr == 4 && (mode == 3 || mode == 1) && rng.chance(2, 3) {
+    let mut lazer_extra = if repr == 4 && (mode == 3 || mode == 1) && rng.chance(2, 3) {
         rng.below(8) as u8
     } else {
         0
     };
+    // the Classic mod exists only outside the legacy bits
+    if repr >= 2 && rng.chance(1, 4) {
+        lazer_extra |= 8;
+    }
     Settings {
         bits,
         repr,
